@@ -39,6 +39,8 @@ pub struct Shared {
 	pub rx_split: bool,
 	/// `send_ping` fails (the send half is broken at the moment a ping is written)
 	pub fail_ping: bool,
+	/// `close()` fails too (a broken send half usually cannot say goodbye either)
+	pub fail_close: bool,
 }
 
 pub struct MockTx(pub Arc<Shared>);
@@ -80,8 +82,12 @@ impl TransportSenderT for MockTx {
 		if self.0.tx_points {
 			sched::point("tx:close").await;
 		}
-		sched::log("tx:close");
 		*self.0.tx_closed.lock().unwrap() = true;
+		if self.0.fail_close {
+			sched::log("tx:close:FAULT");
+			return Err(MockErr("injected-close-fault".into()));
+		}
+		sched::log("tx:close");
 		Ok(())
 	}
 }
@@ -282,6 +288,41 @@ pub struct CliScenarioCfg {
 	/// this many sequential calls (answered at once, no scheduling points) are made before the front-end actors start,
 	/// so that the ids used by the scenario proper start at `warmup`
 	pub warmup: usize,
+	/// see `Shared::fail_close`
+	pub fail_close: bool,
+	/// build the client through `WsClientBuilder` (the jsonrpsee-ws-client crate's own builder) with an RPC middleware
+	/// installed: `Some(true)` = every setting first and `set_rpc_middleware` as the last call, `Some(false)` = the
+	/// middleware first
+	pub ws_builder: Option<bool>,
+}
+
+/// The same client configuration expressed through `jsonrpsee_ws_client::WsClientBuilder`, with the default logger
+/// middleware installed explicitly (so the client type stays the default one).
+pub fn ws_builder_plain(buffer_cap: usize, id_kind: IdKind, mw_last: bool, shared: Arc<Shared>) -> Client {
+	let cfg = CliScenarioCfg { id_kind, ops: vec![], env: vec![], fail_send_at: None, tx_points: false, buffer_cap, late_after: 0, rx_split: false, ping_ms: None, send_ping_ms: None, fail_ping: false, warmup: 0, fail_close: false, ws_builder: Some(mw_last) };
+	ws_builder_client(&cfg, mw_last, shared)
+}
+
+fn ws_builder_client(cfg: &CliScenarioCfg, mw_last: bool, shared: Arc<Shared>) -> Client {
+	use jsonrpsee_ws_client::{RpcServiceBuilder, WsClientBuilder};
+	let mw = || RpcServiceBuilder::default().rpc_logger(1024);
+	let b = WsClientBuilder::new();
+	let settings = |b: WsClientBuilder<_>| {
+		let mut b = b.request_timeout(Duration::from_secs(3600)).max_buffer_capacity_per_subscription(cfg.buffer_cap).id_format(cfg.id_kind);
+		if let Some(ms) = cfg.send_ping_ms {
+			b = b.enable_ws_ping(jsonrpsee_ws_client::PingConfig::new().ping_interval(Duration::from_millis(ms)).inactive_limit(Duration::from_secs(36000)).max_failures(usize::MAX));
+		} else if let Some(ms) = cfg.ping_ms {
+			b = b.enable_ws_ping(jsonrpsee_ws_client::PingConfig::new().ping_interval(Duration::from_secs(36000)).inactive_limit(Duration::from_millis(ms)).max_failures(usize::MAX));
+		} else {
+			b = b.disable_ws_ping();
+		}
+		b
+	};
+	if mw_last {
+		settings(b).set_rpc_middleware(mw()).build_with_transport(MockTx(shared.clone()), MockRx(shared))
+	} else {
+		settings(b.set_rpc_middleware(mw())).build_with_transport(MockTx(shared.clone()), MockRx(shared))
+	}
 }
 
 /// Build the client and spawn all actors. Must be called inside the runtime.
@@ -289,6 +330,7 @@ pub fn setup(cfg: &CliScenarioCfg) -> CliState {
 	let shared = Arc::new(Shared {
 		rx_split: cfg.rx_split,
 		fail_ping: cfg.fail_ping,
+		fail_close: cfg.fail_close,
 		sent: Mutex::new(Vec::new()),
 		send_calls: Mutex::new(0),
 		fail_send_at: cfg.fail_send_at,
@@ -319,7 +361,10 @@ pub fn setup(cfg: &CliScenarioCfg) -> CliState {
 				.max_failures(usize::MAX),
 		);
 	}
-	let client: Client = builder.build_with_tokio(MockTx(shared.clone()), MockRx(shared.clone()));
+	let client: Client = match cfg.ws_builder {
+		None => builder.build_with_tokio(MockTx(shared.clone()), MockRx(shared.clone())),
+		Some(mw_last) => ws_builder_client(cfg, mw_last, shared.clone()),
+	};
 	let client = Arc::new(client);
 	let n = cfg.ops.len();
 	let log = Arc::new(Mutex::new(OpLog {
